@@ -125,7 +125,7 @@ BOUNDED = {
              'bound': 'quick 60 (thorough 600) generated acyclic requirement graphs: 3 number inputs, 3 knowledge models requiring one another, 7 decisions (literal expression, boxed context or boxed invocation) over random '
                       'subsets of the inputs, the earlier decisions (diamonds, a decision required directly and through a service), the knowledge models and the earlier single-output decision services called as functions, '
                       '2 decision services (one or two output decisions, encapsulated decisions, input data, optionally an input decision); every decision and service invoked by name with the inputs alone and with the inputs '
-                      'plus entries whose names occur in no requirement closure (services with an input decision: with its value supplied); in every model also a service called by a boxed invocation that binds one of its two inputs (the other is null inside, whatever the caller holds under its name) and a decision requiring a decision and an input data that share a variable name (nothing supplied: the decision's value); about 1 900 results against a reference evaluation in topological order '
+                      'plus entries whose names occur in no requirement closure (services with an input decision: with its value supplied); in every model also a service called by a boxed invocation that binds one of its two inputs (the other is null inside, whatever the caller holds under its name) and a decision requiring a decision and an input data that share a variable name (nothing supplied: the value of the decision); about 1 900 results against a reference evaluation in topological order '
                       '(integers with distinct prime weights). Not generated: decision tables, relations and function definitions as decision logic, typed conversions, other name clashes between requirements, '
                       'an input entry named like a required decision (it overrides that decision: DMN TCK 0085 pins this)'}],
 }
